@@ -907,6 +907,16 @@ def mon_c11(net, obs, opts, mode, transient=False):
     # ---- loop closure per circulation pump (single-pump loops only)
     pumps = [(t, idx) for t in ("circ_pump_mass", "circ_pump_pressure") if has(net, t) for idx in net[t].index
              if bool(net[t].at[idx, "in_service"]) and (t, idx) in by_el]
+    # ---- every circulation pump: the heat it reports is the heat its own stream takes up (inlet = return junction, outlet = its
+    # own outlet temperature), whatever else flows into its flow junction
+    for t, idx in pumps:
+        s = by_el[(t, idx)]
+        q_rep = float(net["res_" + t].at[idx, "qext_w"])
+        own_heat = -duty(s)
+        obs.count("circ_pump_own_duty_checks")
+        if abs(q_rep - own_heat) > 1e-9 * max(abs(own_heat), 1.0) + 1e-6:
+            obs.violate("circ_pump_duty_differs_from_own_stream", "%s: reported qext_w=%.9g but m*cp_mean*(t_outlet - t_from)=%.9g of its own stream"
+                        % (name_of(net, t, idx), q_rep, own_heat), qext_w=q_rep, own=own_heat)
     # a loop that exchanges fluid with the outside (sinks, sources, storages) also exchanges heat there: not a closed loop
     open_loop = any(has(net, t) and bool(net[t]["in_service"].any()) for t in ("sink", "source", "mass_storage"))
     if transient:
